@@ -308,6 +308,16 @@ Definition run_query (q : query) (stages : list stage) (parts : list (list Z)) :
       end
   end.
 
+(* ---- histories: several queries, one after the other, on the SAME dataset object ----------------------------- *)
+(* A dataset object keeps no state between actions unless it is persisted: each action creates its tasks anew from
+   the lineage, so each is evaluated independently of what ran before.  (With a persist()/cache() stage the second
+   action would read the cache -- that is C05's model; histories are only claimed for [uncached] lineages.) *)
+Definition is_persist (st : stage) : bool := match st with SPersist => true | _ => false end.
+Definition uncached (stages : list stage) : bool := forallb (fun st => negb (is_persist st)) stages.
+
+Definition run_history (stages : list stage) (qs : list query) (parts : list (list Z)) : list (list event * result) :=
+  map (fun q => run_query q stages parts) qs.
+
 (* ---- programs: define a lineage, then run one query -------------------------------------------------------- *)
 (* state of the driver while the lineage is being defined: (lineage, log of user-function calls so far, length of
    that log observed after each definition) *)
@@ -323,6 +333,12 @@ Definition run_program (stages : list stage) (q : query) (parts : list (list Z))
   : list nat * (list event * result) :=
   match define_all stages with
   | (lin, _, seen) => (seen, run_query q lin parts)
+  end.
+
+Definition run_program_history (stages : list stage) (qs : list query) (parts : list (list Z))
+  : list nat * list (list event * result) :=
+  match define_all stages with
+  | (lin, _, seen) => (seen, run_history lin qs parts)
   end.
 
 (* ---- local model of Context.parallelize (sizes (i+1)L/n - iL/n, the last slice takes what is left) --------- *)
